@@ -921,6 +921,9 @@ func runC16(c *ctx) {
 		os.Exit(sim.RelayMain(strings.TrimPrefix(c.replay, "relay:")))
 	}
 	res := c.res
+	// vlib seeds splitmix64 with seed*gamma, so neighbouring seeds give the same stream shifted by
+	// one draw; a fork (state = one mixed output) decorrelates them. Still only c.rng.
+	c.rng = c.rng.Fork()
 	exe, err := os.Executable()
 	if err != nil {
 		fmt.Fprintln(os.Stderr, "harness:", err)
@@ -1060,6 +1063,7 @@ func runC16(c *ctx) {
 	if c.replay != "" {
 		return
 	}
+	c16Internal(c)
 	tL := time.Now()
 	c16Lock(c, true)
 	c16Lock(c, false)
